@@ -107,6 +107,8 @@ func specStep(s specState, e cEvent) (specState, bool) {
 		n := s.clone()
 		delete(n, e.op.g)
 		return n, true
+	case "like":
+		return s, true
 	case "read":
 		return s, e.res.err || s.render() == e.res.docs
 	case "count":
@@ -201,7 +203,11 @@ func runConcStream(seed int64, n int, out, backendSpec string) *RunReport {
 					case 3:
 						plans[c] = append(plans[c], cOp{kind: "del", g: 1 + g.Intn(int(nextG)+1)})
 					case 4:
-						plans[c] = append(plans[c], cOp{kind: "count"})
+						if g.Bool() {
+							plans[c] = append(plans[c], cOp{kind: "like", g: c*10 + j})
+						} else {
+							plans[c] = append(plans[c], cOp{kind: "count"})
+						}
 					default:
 						plans[c] = append(plans[c], cOp{kind: "read"})
 					}
@@ -223,7 +229,7 @@ func runConcStream(seed int64, n int, out, backendSpec string) *RunReport {
 						case "insert":
 							docs := make([]*d.Document, op.n)
 							for k := range docs {
-								docs[k] = d.NewDocumentOf(map[string]interface{}{"g": int64(op.g), "k": int64(k), "v": int64(0)})
+								docs[k] = d.NewDocumentOf(map[string]interface{}{"g": int64(op.g), "k": int64(k), "v": int64(0), "tag": fmt.Sprintf("t%d", op.g)})
 							}
 							ev.res.err = db.Insert("c", docs...) != nil
 						case "set":
@@ -233,6 +239,10 @@ func runConcStream(seed int64, n int, out, backendSpec string) *RunReport {
 						case "count":
 							cnt, err := db.Count(query.NewQuery("c"))
 							ev.res.err, ev.res.count = err != nil, cnt
+						case "like":
+							// a regexp criteria private to this goroutine (shared caches inside the library would race)
+							_, err := db.FindAll(query.NewQuery("c").Where(query.Field("tag").Like(fmt.Sprintf("^t%d.*", op.g)).Or(query.Field("g").Eq(op.g))))
+							ev.res.err = err != nil
 						case "read":
 							docs, err := db.FindAll(query.NewQuery("c"))
 							ev.res.err = err != nil
